@@ -674,7 +674,7 @@ def main(tier):
     fx = bool(facts and facts['cached']['resets'])
 
     rnd = random.Random(run.seed * 7919 + 7)
-    n_uni, n_hist, n_sys, n_twin = (12, 10, 2, 3) if tier == 'quick' else (150, 40, 30, 12)
+    n_uni, n_hist, n_sys, n_twin = (12, 10, 2, 3) if tier == 'quick' else (120, 36, 24, 10)
     unis = [gen_universe(rnd, i) for i in range(n_uni)]
     all_hists = []
     for i, u in enumerate(unis):
